@@ -809,7 +809,17 @@ func GenExif(rt *rapid.T, o Options) *ExifFile {
 	}
 	// "Make before Model": the reader resolves the model table through the make,
 	// so writers' tag-ordered value placement is part of the main domain.
+	// one or two large holes (unused space a writer left behind, longer than the 1 KiB scratch buffer) in 8 % of the layouts
+	bigGaps := 0
+	if padMode != 0 && Chance(rt, "biggap?", 0.12) {
+		bigGaps = rapid.IntRange(1, 2).Draw(rt, "biggaps")
+		f.Classes = append(f.Classes, "hole-over-1KiB")
+	}
 	pad := func() int {
+		if bigGaps > 0 && rapid.IntRange(0, 3).Draw(rt, "gaphere") == 0 {
+			bigGaps--
+			return rapid.SampledFrom([]int{1023, 1024, 1025, 1100, 2048, 2049, 3000, 5000}).Draw(rt, "gap")
+		}
 		switch padMode {
 		case 0:
 			return 0
